@@ -30,6 +30,7 @@ from .core import (
     lib_frame,
     raise_sig,
     repo_root,
+    tier,
 )
 
 HERE = os.path.dirname(os.path.dirname(os.path.abspath(__file__)))
@@ -49,6 +50,7 @@ class ShardResult:
         self.nontrivial = set()
         self.labels = collections.Counter()
         self.counters = collections.Counter()
+        self.abort = False
         self.skipped_sigs = collections.Counter()
         self.failures = {}  # sig -> (size, msg, draws)
         self.samples = []
@@ -79,11 +81,71 @@ class ShardResult:
             self.failures[sig] = (size, msg, enc(ch.draws))
 
 
+NONTERM = "no-result:does-not-terminate"
+
+
+class CaseTimeout(BaseException):
+    """raised by the watchdog inside a case (BaseException: library code and
+    the harness' `attempt` must not swallow it)"""
+
+
+def _case_limit():
+    """seconds after which a single case is taken not to terminate.  Cases
+    take milliseconds to a few seconds; the limit is ~100x the slowest one,
+    and a case that hits it is run a second time with three times the limit
+    before it is reported."""
+    try:
+        return float(os.environ["VF_CASE_TIMEOUT"])
+    except (KeyError, ValueError):
+        return 120.0 if tier() == "quick" else 300.0
+
+
+def _run_with_watchdog(fn, ch, limit):
+    import signal
+    import threading
+
+    if (threading.current_thread() is not threading.main_thread()
+            or not hasattr(signal, "setitimer")):
+        return fn(ch)
+
+    def handler(signum, frame):
+        raise CaseTimeout()
+
+    old = signal.signal(signal.SIGALRM, handler)
+    signal.setitimer(signal.ITIMER_REAL, limit)
+    try:
+        return fn(ch)
+    finally:
+        signal.setitimer(signal.ITIMER_REAL, 0)
+        signal.signal(signal.SIGALRM, old)
+
+
 def _call_law(law, ch, res, skip, target):
     """Run one case.  Returns None if it passed / was skipped, else the
     signature of the discrepancy (after recording it)."""
     try:
-        law.fn(ch)
+        limit = _case_limit()
+        try:
+            _run_with_watchdog(law.fn, ch, limit)
+        except CaseTimeout:
+            # confirm on the same drawn values with a longer limit: only a
+            # case that does not finish twice is reported
+            t0 = time.time()
+            ch2 = ReplayChooser(dec(enc(ch.draws)))
+            try:
+                _run_with_watchdog(law.fn, ch2, 3 * limit)
+            except CaseTimeout:
+                raise Discrepancy(
+                    NONTERM,
+                    f"the case did not finish within {limit:.0f} s and, run "
+                    f"again on the same drawn values, not within "
+                    f"{3 * limit:.0f} s (cases of this law take well under a "
+                    f"second)") from None
+            except BaseException:
+                pass
+            res.counters["case-timeouts-not-confirmed"] += 1
+            res.skipped_cases += 1
+            return None
     except Skip:
         res.skipped_cases += 1
         return None
@@ -105,6 +167,10 @@ def _call_law(law, ch, res, skip, target):
     else:
         res.account(ch)
         return None
+    if sig == NONTERM:
+        # nothing can be explored behind a case that does not return: the
+        # shard stops here (no shrinking, no further rounds)
+        res.abort = True
     if sig in skip:
         res.skipped_sigs[sig] += 1
         return None
@@ -148,6 +214,9 @@ def run_hyp_shard(law, n, seedval, tier, skip):
             res.harness_error = str(e)
             state["stop"] = True
             return
+        if res.abort:
+            state["stop"] = True
+            return
         if sig is None:
             return
         if state["target"] is None:
@@ -187,6 +256,8 @@ def run_enum_shard(law, tier, shard, nshards, skip):
         except HarnessError as e:
             res.harness_error = str(e)
             break
+        if res.abort:
+            break
         res.exhaustive_cases += 1
     res.wall = time.time() - t0
     return res
@@ -211,7 +282,7 @@ def _worker(task):
                     skip,
                 )
                 out.append(r)
-                if not r.failures or r.harness_error:
+                if not r.failures or r.harness_error or r.abort:
                     break
                 skip |= set(r.failures)
     except BaseException as e:
